@@ -106,11 +106,15 @@ impl Cfg {
         }
     }
     fn build(&self, seed: u64, crc_override: Option<u32>) -> (Vec<u8>, Vec<u8>, (usize, usize)) {
+        self.build_dd(seed, crc_override, crate::reference::zipbuild::Dd::None)
+    }
+    /// `dd`: the entry as a one-pass encryptor writes it - general-purpose bit 3, CRC and sizes in a data descriptor
+    fn build_dd(&self, seed: u64, crc_override: Option<u32>, dd: crate::reference::zipbuild::Dd) -> (Vec<u8>, Vec<u8>, (usize, usize)) {
         let content = self.content(seed);
         let spec = Spec {
             entries: vec![
                 ESpec { name: b"plain".to_vec(), method: 8, content: b"neighbour".to_vec(), ..Default::default() },
-                ESpec { name: b"aes".to_vec(), method: self.method, content: content.clone(), crc_override, enc: Enc::Aes { version: self.version, strength: self.strength, pw: self.pw.clone(), salt_seed: (self.len as u8).wrapping_add(self.strength) }, ..Default::default() },
+                ESpec { name: b"aes".to_vec(), method: self.method, content: content.clone(), crc_override, dd, enc: Enc::Aes { version: self.version, strength: self.strength, pw: self.pw.clone(), salt_seed: (self.len as u8).wrapping_add(self.strength) }, ..Default::default() },
             ],
             ..Default::default()
         };
@@ -212,6 +216,25 @@ fn check_cfg(c: &Cfg, seed: u64, flips: bool, st: &mut Stats, order: u64) {
             (1, _) => st.viol("ae1-crc-not-enforced", format!("{what}: AE-1 entry with a wrong CRC field gives {}", match &r { Attempt::Clean(x) => format!("a completed read of {} bytes", x.len()), o => format!("{o:?}") }), case(json!("wrong-crc")), order),
             (_, Attempt::Clean(x)) if *x == content => st.class("ae2-wrong-crc:ignored"),
             (_, _) => st.viol("ae2-crc-not-ignored", format!("{what}: AE-2 entry with a non-zero CRC field gives {r:?}"), case(json!("wrong-crc")), order),
+        }
+    }
+    // the same entry written in one pass (bit 3, data descriptor with / without signature): right password -> content; the CRC
+    // rule is the same (enforced for AE-1, ignored for AE-2) - the central directory carries the CRC either way
+    for dd in [crate::reference::zipbuild::Dd::Sig32, crate::reference::zipbuild::Dd::NoSig32] {
+        st.evals += 2;
+        let (b1, _, _) = c.build_dd(seed, None, dd);
+        match attempt(&b1, 1, Some(&c.pw), 0) {
+            Attempt::Clean(x) if x == content => st.class("data-descriptor:right-password:content"),
+            Attempt::Panic(p) => st.viol(format!("panic/{}", panic_site(&p)), format!("{what} (data descriptor): {p}"), case(json!({"dd": format!("{dd:?}")})), order),
+            other => st.viol(format!("right-password-fails/data-descriptor/AE-{}/m{}", c.version, c.method), format!("{what}, written with a data descriptor ({dd:?}): correct password gives {}", match &other { Attempt::Clean(x) => format!("{} other bytes", x.len()), o => format!("{o:?}") }), case(json!({"dd": format!("{dd:?}")})), order),
+        }
+        let (b2, _, _) = c.build_dd(seed, Some(0x1234_5678), dd);
+        let r = attempt(&b2, 1, Some(&c.pw), 0);
+        match (c.version, &r) {
+            (1, Attempt::ReadErr(_)) => st.class("ae1-wrong-crc:read-error"),
+            (1, _) => st.viol("ae1-crc-not-enforced/data-descriptor", format!("{what}, written with a data descriptor ({dd:?}): AE-1 entry with a wrong CRC field gives {}", match &r { Attempt::Clean(x) => format!("a completed read of {} bytes", x.len()), o => format!("{o:?}") }), case(json!({"wrong-crc-dd": format!("{dd:?}")})), order),
+            (_, Attempt::Clean(x)) if *x == content => st.class("ae2-wrong-crc:ignored"),
+            (_, _) => st.viol("ae2-crc-not-ignored/data-descriptor", format!("{what}, data descriptor: AE-2 entry with a non-zero CRC field gives {r:?}"), case(json!({"wrong-crc-dd": format!("{dd:?}")})), order),
         }
     }
     // every single-bit flip of salt / verifier / ciphertext / MAC
